@@ -806,7 +806,7 @@ def check(run):
     conv_experiment(run, unit, r, quick)
     # ---------------- end to end: ABF through the engine simulator, the files it writes
     e2e(run, r, quick, exes["c16e2e"], model)
-    shared_abf(run, r, quick)
+    shared_abf(run, r, quick, model)
     run.cov["correspondence"].update({"oned_ti_cases": len(cases), "div_cases": len(dlines), "atimes_cases": len(alines),
                                       "solve_cases": len(slines), "solve_converged": nconv})
 
@@ -1171,12 +1171,30 @@ def file_oracle(run, d, stem, gext, pext, cext, rep):
                       % (rn, 1e-4 * bn, nsamp, stem + pext), rep)
 
 
-def shared_abf(run, r, quick):
-    """multiple-walker (shared) ABF through the walker harness of C14 (socket replica interface): 2-3 walkers in lock step,
-    gradients exchanged every sharedFreq steps; at the end every walker writes its LOCAL grids and local_pmf
-    (<prefix>.count/.grad/.pmf, integrated from set_div) and walker 0 the collected ones (<prefix>.all.*, divergence kept
-    incrementally and re-set after every exchange).  Same file oracle as for a single walker."""
-    import importlib.util, shutil
+def divcheck_oracle(run, line, what, rep, model=None, tag=""):
+    """DIVCHECK / DIVCHECK-LOCAL line: the divergence array held by the PMF object vs set_div() of its gradient grids"""
+    parts = line.split(" ", 1)[1].split("|")
+    inc, bat = parse_floats(parts[3].split()), parse_floats(parts[4].split())
+    nsam = sum(int(x) for x in parts[2].split())
+    if not same(inc, bat):
+        badi = [i for i, (x, y) in enumerate(zip(inc, bat)) if x != y and not (x != x and y != y)][:6]
+        run.violation("e2e:incremental-vs-batch", "%s (%d samples): the divergence array the PMF was integrated from differs from set_div() of the gradient "
+                      "grids beside it at flat index(es) %s: held %s, batch %s [%s]" % (what, nsam, badi, [inc[i] for i in badi], [bat[i] for i in badi], tag), rep)
+    if model:
+        ml = "DIVSTATE " + parts[0].strip() + " | " + parts[1].strip() + " | " + parts[2].strip()
+        rcm, mo, em = V.run_lines(model, [ml])
+        if not mo or not same(parse_floats(mo[0].split()[1:]), inc):
+            run.mismatch("abf-site-divergence", tag + ": " + ml[:300], " ".join(parts[3].split()[:12]), (mo[0] if mo else em)[:300])
+    return nsam
+
+
+def shared_abf(run, r, quick, model=None):
+    """multiple-walker (shared) ABF through the walker harness of C14 (socket replica interface; the walkers are c16e2e
+    processes): 2-3 walkers in lock step, gradients exchanged every sharedFreq steps; in half of the cases every walker is
+    restarted from a state file BETWEEN two sharing steps and the output is written before the next one.  At the end every
+    walker writes its LOCAL grids and local_pmf (<prefix>.count/.grad/.pmf) and walker 0 the collected ones (<prefix>.all.*).
+    File oracle on every written .pmf/.grad pair; divcheck on the collected and on the local PMF objects."""
+    import shutil
     sp = os.path.join(V.ROOT, "props", "C14")
     try:
         sys.path.insert(0, sp)
@@ -1187,19 +1205,21 @@ def shared_abf(run, r, quick):
     finally:
         if sp in sys.path:
             sys.path.remove(sp)
-    try:
-        exe = V.build_prog("c14walk", ["props/C14/unit.cpp"])
-    except V.InfraError as ex:
-        run.notes.append("shared ABF stream skipped: c14walk does not build (%s)" % str(ex)[-200:])
-        return
+    exe = V.build_prog("c16e2e", PROGS["c16e2e"])
     base = os.path.join(V.BUILD, "scratch", "C16sh")
-    for k in range(2 if quick else 12):
+    for k in range(3 if quick else 16):
         n = r.choice([2, 2, 3])
         nd = r.choice([2, 2, 3])
         nb = [r.randint(2, 3) for _ in range(nd)]
         wd = r.sample([0.5, 1.0, 0.25], nd)
-        F = r.choice([2, 3, 4])
-        nsteps = F * r.randint(2, 4) + r.randint(0, F - 1)
+        F = r.choice([3, 4, 5])
+        restart = (k % 2 == 0)
+        # T1 steps (numbered 0 .. T1-1) with the last one strictly between two sharing steps; after the restart that step is
+        # repeated and `extra` more are made, all before the next multiple of sharedFreq
+        rem = r.randint(1, F - 1)
+        T1 = F * r.randint(1, 3) + rem + 1          # last step number = F*m + rem
+        extra = r.randint(0, F - 1 - rem)
+        nsteps = T1 + extra
         dirs = []
         for i in range(n):
             dd = os.path.join(base, "c%d" % k, "w%d" % i)
@@ -1215,24 +1235,35 @@ def shared_abf(run, r, quick):
         setup_l = ["natoms %d" % nd, "samestep 1", "includecv 1", "prefix sh", "new", "config EOF"] + conf + ["EOF", "show cv 0 energy 0 bias 0 atomf 0"]
         sched = [[[(r.randrange(nb[d]) + r.choice([0.25, 0.5, 0.75])) * wd[d] for d in range(nd)] for _ in range(n)] for _ in range(nsteps)]
         forces = [[[V.dyadic(r, -8, 8) for d in range(nd)] for _ in range(n)] for _ in range(nsteps)]
-        rep = {"kind": "shared", "n": n, "setup": setup_l, "positions": sched, "forces": forces}
+        rep = {"kind": "shared", "n": n, "setup": setup_l, "positions": sched, "forces": forces, "sharedFreq": F,
+               "restart_after_step": (T1 - 1) if restart else None, "steps": nsteps}
         run.count("shared:%d" % k, True)
-        run.dist("shared-abf:n=%d,nd=%d,sharedFreq=%d" % (n, nd, F))
+        run.dist("shared-abf:n=%d,nd=%d,sharedFreq=%d,%s" % (n, nd, F, "restart-between-sharing-steps" if restart else "no-restart"))
+        def lines(t):
+            def f(i):
+                L = []
+                for d in range(nd):
+                    L.append("pos %d 0 0 %s" % (d + 1, V.hexf(sched[t][i][d])))
+                    L.append("eforce %d 0 0 %s" % (d + 1, V.hexf(forces[t][i][d])))
+                return L + ["step"]
+            return f
         try:
             with W.Team(exe, n, dirs, timeout_ms=8000) as T:
                 res = T.all_do(setup_l, 60.0)
                 if not all(any(x.startswith("CONFIG err=ok") for x in rr) for rr in res):
                     run.violation("shared:config", "shared ABF configuration failed: %s" % res[0][-3:], rep)
                     continue
-                for t in range(nsteps):
-                    def lines(i):
-                        L = []
-                        for d in range(nd):
-                            L.append("pos %d 0 0 %s" % (d + 1, V.hexf(sched[t][i][d])))
-                            L.append("eforce %d 0 0 %s" % (d + 1, V.hexf(forces[t][i][d])))
-                        return L + ["step"]
-                    T.all_do(lines, 60.0)
-                res = T.all_do(["postrun"], 60.0)
+                for t in range(T1):
+                    T.all_do(lines(t), 60.0)
+                if restart:
+                    res = T.all_do(["save %s sh.st" % r.choice(["text", "binary"])] + setup_l + ["load sh.st"], 60.0)
+                    if not all(any(x.startswith("LOAD err=ok") for x in rr) for rr in res):
+                        run.violation("shared:restart", "a shared ABF walker could not be restarted from its state: %s" % [rr[-3:] for rr in res], rep)
+                        continue
+                    T.all_do(lines(T1 - 1), 60.0)        # the engine repeats the step at which the state was saved
+                for t in range(T1, nsteps):
+                    T.all_do(lines(t), 60.0)
+                res = T.all_do(["postrun", "divcheck a", "divcheck a local"], 60.0)
                 if not all(any(x.startswith("POSTRUN err=ok") for x in rr) for rr in res):
                     run.violation("shared:postrun", "post_run of a shared ABF walker failed: %s" % [rr[-2:] for rr in res], rep)
                     continue
@@ -1242,6 +1273,12 @@ def shared_abf(run, r, quick):
             continue
         for i in range(n):
             file_oracle(run, dirs[i], "sh", ".grad", ".pmf", ".count", dict(rep, walker=i, files="local"))
+            for x in res[i]:
+                if x.startswith("DIVCHECK-LOCAL ") and "none" not in x.split()[1:2]:
+                    divcheck_oracle(run, x, "shared ABF walker %d, LOCAL PMF%s" % (i, ", restarted between two sharing steps" if restart else ""),
+                                    dict(rep, walker=i), model, "shared c%d w%d local" % (k, i))
+                elif x.startswith("DIVCHECK ") and "none" not in x.split()[1:2]:
+                    divcheck_oracle(run, x, "shared ABF walker %d, collected PMF" % i, dict(rep, walker=i), model, "shared c%d w%d" % (k, i))
         if os.path.exists(os.path.join(dirs[0], "sh.all.pmf")):
             file_oracle(run, dirs[0], "sh.all", ".grad", ".pmf", ".count", dict(rep, walker=0, files="all"))
             run.dist("shared-abf:collected-files-checked")
